@@ -240,6 +240,11 @@ func sqlTemplates(f *Func, e ast.Expr, depth int) []string {
 	if s, ok := ConstString(f.Info(), e); ok {
 		return []string{s}
 	}
+	if depth == 0 {
+		if ts := structRangeTemplates(f, e); ts != nil {
+			return ts
+		}
+	}
 	switch x := e.(type) {
 	case *ast.BinaryExpr:
 		if x.Op == token.ADD {
@@ -364,6 +369,122 @@ func sqlTemplates(f *Func, e ast.Expr, depth int) []string {
 		return out
 	}
 	return []string{"§"}
+}
+
+// structRangeTemplates resolves a query built from the fields of a range variable
+// over a literal table of structs:
+//
+//	for _, t := range []struct{ name, owner string }{{"node_points", "node_id"}, …} {
+//		db.Exec(`DELETE FROM ` + t.name + ` … GROUP BY ` + t.owner)
+//	}
+//
+// One template per table row, with all fields of that row substituted together.
+func structRangeTemplates(f *Func, e ast.Expr) []string {
+	info := f.Info()
+	root := f.Root()
+	if root.Body == nil {
+		return nil
+	}
+	var rv types.Object
+	ast.Inspect(e, func(n ast.Node) bool {
+		if sel, ok := n.(*ast.SelectorExpr); ok {
+			if id, ok := ast.Unparen(sel.X).(*ast.Ident); ok {
+				if v, ok := ObjOf(info, id).(*types.Var); ok && !v.IsField() {
+					if _, isStruct := v.Type().Underlying().(*types.Struct); isStruct && rv == nil {
+						rv = v
+					}
+				}
+			}
+		}
+		return true
+	})
+	if rv == nil {
+		return nil
+	}
+	stt := rv.Type().Underlying().(*types.Struct)
+	var lit *ast.CompositeLit
+	ast.Inspect(root.Body, func(n ast.Node) bool {
+		rs, ok := n.(*ast.RangeStmt)
+		if !ok || rs.Value == nil || ObjOf(info, rs.Value) != rv {
+			return true
+		}
+		if cl, ok := ast.Unparen(rs.X).(*ast.CompositeLit); ok {
+			lit = cl
+		} else if lo := ObjOf(info, rs.X); lo != nil {
+			n := 0
+			ast.Inspect(root.Body, func(x ast.Node) bool {
+				if as, ok := x.(*ast.AssignStmt); ok && len(as.Lhs) == 1 && len(as.Rhs) == 1 && ObjOf(info, as.Lhs[0]) == lo {
+					n++
+					if cl, ok := ast.Unparen(as.Rhs[0]).(*ast.CompositeLit); ok {
+						lit = cl
+					}
+				}
+				return true
+			})
+			if n != 1 {
+				lit = nil
+			}
+		}
+		return true
+	})
+	if lit == nil || len(lit.Elts) == 0 {
+		return nil
+	}
+	var out []string
+	for _, el := range lit.Elts {
+		if kv, ok := el.(*ast.KeyValueExpr); ok {
+			el = kv.Value
+		}
+		row, ok := ast.Unparen(el).(*ast.CompositeLit)
+		if !ok {
+			return nil
+		}
+		fields := map[string]string{}
+		for i, fe := range row.Elts {
+			name := ""
+			if kv, ok := fe.(*ast.KeyValueExpr); ok {
+				if id, ok := kv.Key.(*ast.Ident); ok {
+					name = id.Name
+				}
+				fe = kv.Value
+			} else if i < stt.NumFields() {
+				name = stt.Field(i).Name()
+			}
+			if v, ok := ConstString(info, fe); ok && name != "" {
+				fields[name] = v
+			}
+		}
+		var ev func(x ast.Expr) (string, bool)
+		ev = func(x ast.Expr) (string, bool) {
+			x = ast.Unparen(x)
+			if v, ok := ConstString(info, x); ok {
+				return v, true
+			}
+			switch y := x.(type) {
+			case *ast.BinaryExpr:
+				if y.Op == token.ADD {
+					a, ok1 := ev(y.X)
+					b, ok2 := ev(y.Y)
+					return a + b, ok1 && ok2
+				}
+			case *ast.SelectorExpr:
+				if ObjOf(info, y.X) == rv {
+					v, ok := fields[y.Sel.Name]
+					return v, ok
+				}
+			}
+			if ts := sqlTemplates(f, x, 1); len(ts) == 1 {
+				return ts[0], true
+			}
+			return "", false
+		}
+		t, ok := ev(e)
+		if !ok {
+			return nil
+		}
+		out = append(out, t)
+	}
+	return out
 }
 
 // sqlTemplatesBound evaluates a string expression of a helper with its
